@@ -33,6 +33,11 @@ def run(tier):
                     cases.append({"cfg": c["cfg"], "run": {"mode": "meta", "neigh": nk, "model": im, "tgrid": True}})
                 if c["cfg"]["target"] == "point" and not c["cfg"]["verr"]:
                     cases.append({"cfg": c["cfg"], "run": {"mode": "exact", "neigh": nk, "model": im}})
+                # exactness with angular sectors and a binding nmaxi (extra samples around the cluster): the datum on the
+                # target is the closest sample of its sector and must always be retained
+                if nk == "moving" and c["cfg"]["target"] == "point" and not c["cfg"]["verr"] and c["cfg"]["ndim"] >= 2 and im == 0 \
+                        and c["cfg"]["drift"] in ("SK", "OK"):
+                    cases.append({"cfg": c["cfg"], "run": {"mode": "exact", "neigh": nk, "model": im, "sectors": True}})
                 # one error variance per variable, the second variable error free: exact for that variable
                 if c["cfg"]["target"] == "point" and c["cfg"]["verr"] and c["cfg"]["nvar"] == 2 and im != 2:
                     cases.append({"cfg": c["cfg"], "run": {"mode": "exact", "neigh": nk, "model": im, "v2zero": True}})
@@ -65,6 +70,8 @@ def run(tier):
             counts["exact"] = counts.get("exact", 0) + (1 if ob["n"] > 0 else 0)
             if cs["run"].get("v2zero"):
                 counts["exact_error_free_variable"] = counts.get("exact_error_free_variable", 0) + (1 if ob["n"] > 0 else 0)
+            if cs["run"].get("sectors"):
+                counts["exact_with_sectors"] = counts.get("exact_with_sectors", 0) + (1 if ob["n"] > 0 else 0)
             if ob.get("nfar"):
                 counts["exact_changing_neighbourhoods"] = counts.get("exact_changing_neighbourhoods", 0) + 1
             if not ob.get("finite", True):
@@ -79,7 +86,7 @@ def run(tier):
         if fails:
             ck.disagree({"kind": cs["run"]["mode"], "drift": cfg["drift"], "nvar": cfg["nvar"], "target": cfg["target"],
                          "neigh": cs["run"]["neigh"], "verr": cfg["verr"], "fails": sorted(fails)}, {"case": cs, "observed": ob})
-    for k in ("perm_est", "trans_est", "lin_est", "drift_est", "sumw", "exact", "exact_error_free_variable", "exact_changing_neighbourhoods"):
+    for k in ("perm_est", "trans_est", "lin_est", "drift_est", "sumw", "exact", "exact_error_free_variable", "exact_changing_neighbourhoods", "exact_with_sectors"):
         if counts.get(k, 0) == 0:
             raise Broken("vacuous: relation %s never evaluated" % k)
     ck.cov["traces_validated_against_impl"] = len(obs)
